@@ -57,6 +57,7 @@ def project_list(tier):
     out.append(("subplan", ("f_subplan", {})))
     out.append(("subplan_tree", ("f_subplan", {"inputs": "tree"})))
     out.append(("selfprod", ("f_selfprod", {})))
+    out.append(("pc4", ("f_prodcons4", {})))
     # incremental builds: a first build with the default schedule, user edits, then every schedule
     out.append(("chain:edit-outputs", ("f_chain", {"__edits__": [("write", "c.txt", "user\n"), ("write", "a.txt", "user\n")]})))
     out.append(("chain:edit-src+out", ("f_chain", {"__edits__": [("write", "src.txt", "edited\n"), ("remove", "c.txt")]})))
@@ -65,7 +66,7 @@ def project_list(tier):
 
 
 def configs(name, tier):
-    jobs = (1, 2, 3)
+    jobs = (1, 4) if name == "pc4" else (1, 2, 3)
     if name == "resource":
         # only availabilities that satisfy every demand: an unsatisfiable demand legitimately
         # leaves a step pending, which is a matter of configuration, not of scheduling
@@ -79,7 +80,7 @@ def configs(name, tier):
 
 def bound_for(name, tier):
     if tier == "quick":
-        return 2 if name.startswith("two:") and "conflict" in name else 1
+        return 2 if (name.startswith("two:") and "conflict" in name) or name == "pc4" else 1
     return 2
 
 
